@@ -24,6 +24,23 @@ Laws ==
     /\ Meaning(<<T_do \o T_normal>>) = Meaning(<<T_do \o T_eclipse>>)
     /\ Meaning(<<T_dr>>).cfg.repeat = <<50>> /\ Meaning(<<T_dr, T_dv>>).cfg.repeat = <<50>> /\ Meaning(<<T_dr, T_dv>>).cfg.verbose
     /\ Meaning(<<T_ds>>).cfg.shuffle /\ Meaning(<<T_ds>>).cfg.seed = <<>>
+    \* a seedless -s is documented wherever it stands: alone, last, before another option, after a seeded one (the last -s counts)
+    /\ \A v \in ClockVectors : (v[1] # <<51>> /\ \A k \in 1..Len(v) : v[k] # T_dh) =>
+          /\ Meaning(v).k = "accept" /\ Meaning(v).cfg.shuffle
+          /\ v[Len(v)] = T_ds => Meaning(v).cfg.seed = <<>>
+    /\ \A t \in ClockFollow \ {<<51>>, T_dh} : Meaning(<<T_ds, t>>).cfg.seed = <<>>
+    /\ Meaning(<<T_ds \o <<55>>, T_ds>>).cfg.seed = <<>> /\ Meaning(<<T_ds, T_ds \o <<55>>>>).cfg.seed = <<55>>
+    /\ \A c \in Clocks \ {<<48>>} : ClockSeedOK(c)
+    /\ ~ClockSeedOK(<<48>>) /\ ~ClockSeedOK(<<>>)
+    \* what the run gets: one verbosity level, the stronger option wins whatever the order and multiplicity
+    /\ \A f \in Flags : LET a == Applied(Meaning(<<f>>).cfg) IN
+          /\ a.level = (IF f = T_dvv THEN 2 ELSE IF f = T_dv THEN 1 ELSE 0) /\ a.color = (f = T_dc) /\ a.sep = (f = T_dp)
+          /\ a.runs = (IF f \in {T_dlg, T_dln, T_dll} THEN 0 ELSE 1)
+    /\ \A f1, f2 \in Flags : LET a == Applied(Meaning(<<f1, f2>>).cfg) IN
+          /\ a.level = Max2(Level(Meaning(<<f1>>).cfg), Level(Meaning(<<f2>>).cfg))
+          /\ a = Applied(Meaning(<<f2, f1>>).cfg)
+    /\ Level(Meaning(<<T_dv, T_dvv>>).cfg) = 2 /\ Level(Meaning(<<T_dvv, T_dv, T_dv>>).cfg) = 2
+    /\ Applied(Meaning(<<T_dr \o <<51>>, T_dvv>>).cfg).runs = 3 /\ Applied(Meaning(<<T_dr>>).cfg).runs = 2
     \* numbers are data: the configured count / seed is the digit string without its leading zeros, over the whole range 1..2^32-1
     /\ \A nm \in InRangeNames : LET n == NumText(nm) IN
          /\ Meaning(<<T_ds \o n>>).k = "accept" /\ Meaning(<<T_ds \o n>>).cfg.seed = Canon(n) /\ Meaning(<<T_ds \o n>>).cfg.shuffle
